@@ -146,7 +146,7 @@ class Inst:
     """one harness instance = one goto program = one family of solver queries."""
     def __init__(self, id, props, harness, entry, tus=(), defs=(), stubs=(), unwind=3, unwindset=(),
                  backends=("z3", "sat"), timeout=120, tier="quick", objbits=12, mem_gb=16,
-                 bounds="", inputs="", c_sources=(), nounwind_assert=False, extra_cbmc=(), ub=True, desc="", model_unwind=24, short_strings=True, truncate_long=False, quick_also=None, native_extra=()):
+                 bounds="", inputs="", c_sources=(), nounwind_assert=False, extra_cbmc=(), ub=True, desc="", model_unwind=24, short_strings=True, truncate_long=False, quick_also=None, native_extra=(), noops=()):
         self.native_extra = list(native_extra)      # further /repo sources the native (replay) build of the harness file needs
         # quick tier of property P = quick instances whose primary property (props[0]) is P, or that list P in quick_also;
         # the thorough tier of P runs every instance that carries P
@@ -162,7 +162,7 @@ class Inst:
         self.tus = list(tus); self.defs = list(defs); self.stubs = list(stubs)
         self.unwind = unwind; self.unwindset = list(unwindset); self.backends = list(backends)
         self.timeout = timeout; self.tier = tier; self.objbits = objbits; self.mem_gb = mem_gb
-        self.bounds = bounds; self.inputs = inputs; self.c_sources = list(c_sources)
+        self.bounds = bounds; self.inputs = inputs; self.c_sources = list(c_sources); self.noops = list(noops)
         self.nounwind_assert = nounwind_assert; self.extra_cbmc = list(extra_cbmc); self.ub = ub; self.desc = desc
 
 CORE_TUS = ["blocc/value.cpp", "blocc/context.cpp", "blocc/collection.cpp", "blocc/tuple.cpp", "blocc/tuple_decl.cpp",
@@ -184,6 +184,8 @@ EMPTY_DECL_UNWIND = ["_ZNSt12_Destroy_auxILb0EE9__destroyIPN4bloc4TypeEEEvT_S5_.
                      "_ZSt16__do_uninit_copyIN9__gnu_cxx17__normal_iteratorIPKN4bloc4TypeESt6vectorIS3_SaIS3_EEEEPS3_ET0_T_SC_SB_.0:1",
                      "_ZSt16__do_uninit_copyIPN4bloc4TypeES2_ET0_T_S4_S3_.0:1"]
 
+TU_DEFS = {"apps/main.cpp": ("main=bloc_app_main",)}      # the command's main() is a kernel like any other function
+
 def build_instance(inst, kfdir, workdir):
     """returns path of the goto binary (without main; main is linked per run mode)."""
     os.makedirs(workdir, exist_ok=True)
@@ -192,7 +194,7 @@ def build_instance(inst, kfdir, workdir):
     bcs.append(compile_bc(hsrc, inst.defs, extra_inc=[kfdir]))
     for t in inst.tus:
         p = os.path.join(REPO, t)
-        bcs.append(compile_bc(p, lang_c=t.endswith(".c")))
+        bcs.append(compile_bc(p, TU_DEFS.get(t, ()), lang_c=t.endswith(".c")))
     linked = os.path.join(workdir, "linked.bc")
     r = sh([LLVM + "/llvm-link"] + bcs + ["-o", linked])
     if r.returncode != 0:
@@ -209,6 +211,8 @@ def build_instance(inst, kfdir, workdir):
         cmd += ["--guard-list", gl]
     for s in inst.stubs:
         cmd += ["--stub", s]
+    for s in inst.noops:
+        cmd += ["--noop", s]
     r = sh(cmd)
     if r.returncode != 0:
         raise BuildError("ir2c: " + r.stdout[-3000:])
@@ -336,7 +340,7 @@ def kernel_functions(inst):
     for t in inst.tus:
         if t in CORE_TUS:
             continue
-        bc = compile_bc(os.path.join(REPO, t), lang_c=t.endswith(".c"))
+        bc = compile_bc(os.path.join(REPO, t), TU_DEFS.get(t, ()), lang_c=t.endswith(".c"))
         if bc not in _kfn_cache:
             r = sh([LLVM + "/llvm-nm", "--defined-only", bc])
             _kfn_cache[bc] = set(l.split()[-1] for l in r.stdout.splitlines() if len(l.split()) >= 3 and l.split()[-2] in "TtWw")
